@@ -7,7 +7,7 @@
    Reader.getc had recorded at that moment (constants regenerated from getc and _set_source).
    Children without an annotation (made up by the reader: sugar heads, the parts of a dotted
    identifier, joined f-string text) take their parent's position -- that is what fill_pos/replace do. *)
-From HyV Require Import Base.Text Reader.Syntax Gen.ReaderTables Reader.Model Reader.Extend Reader.Cst Reader.PosInv Reader.Positions.
+From HyV Require Import Base.Text Reader.Syntax Gen.ReaderTables Reader.Model Reader.Extend Reader.Cst Reader.PosInv Reader.Positions Reader.Strip.
 
 (* Child within parent, for every text: every annotation lies inside the source, every nested
    annotation lies inside the enclosing one ([wn], Reader/PosInv.v). *)
@@ -44,6 +44,15 @@ Theorem C21_region_locality_partial : forall orc rest u f m,
   rd orc f MTry (u ++ rest) = RTry (Some m) rest.
 Proof. exact region_locality. Qed.
 Print Assumptions C21_region_locality_partial.
+
+(* Recording positions does not change what is read: the position-free reader of C19/C20 is the
+   positioned reader with the annotations erased. *)
+Theorem C21_positions_do_not_change_values : forall oA oP,
+  (forall t, numeric oA t = numeric oP t) -> (forall b t, decode oA b t = decode oP b t) -> (forall c, pyspace oA c = pyspace oP c) ->
+  (forall a b t, mk oA a b t = At a b t) -> (forall a b t, mk oP a b t = t) ->
+  forall s, read_many oP s = strip_outcome (read_many oA s).
+Proof. exact read_many_strip. Qed.
+Print Assumptions C21_positions_do_not_change_values.
 
 (* What is not proved: that the region a model records reads back, on its own, to an equal model
    (the converse direction of the locality lemma: restriction of a read in context to the region).
